@@ -42,7 +42,7 @@ FUNC_CHECKS = {
     "verde/base/base_classes.py": {"BaseBlockCrossValidator": ["C11"], "filter": ["C06"], "score": ["C12"], "grid": ["C05"], "scatter": ["C05"], "profile": ["C05"],
                                    "_get_dims": ["C05"], "_get_extra_coords_names": ["C05"], "_get_data_names": ["C05"], "project_coordinates": ["C05"],
                                    "get_instance_region": ["C05"], "split": ["C11"], "get_n_splits": ["C11"], "*": ["C05"]},
-    "verde/spline.py": {"SplineCV": ["C12"], "fit": ["C02", "C01"], "predict": ["C03"], "jacobian": ["C03"], "greens_func_numpy": ["C03"], "predict_numpy": ["C03"],
+    "verde/spline.py": {"SplineCV": ["C12", "C20"], "fit": ["C02", "C01"], "predict": ["C03"], "jacobian": ["C03"], "greens_func_numpy": ["C03"], "predict_numpy": ["C03"],
                         "jacobian_numpy": ["C03"], "*": ["C03", "C12"]},
     "verde/vector.py": {"Vector": ["C06"], "fit": ["C02", "C06"], "predict": ["C03", "C06"], "jacobian": ["C03"], "greens_func_2d": ["C03"], "predict_2d_numpy": ["C03"],
                         "jacobian_2d_numpy": ["C03"], "*": ["C03", "C06"]},
@@ -161,13 +161,15 @@ def sites(path):
 
 def checks_for(site):
     table = FUNC_CHECKS.get(site["file"], {})
-    for name in reversed(site["owner"]):
+    found = table.get("*", [])
+    for name in site["owner"]:  # outermost first: a class entry wins over a method entry
         if name in table:
-            return table[name]
-    for name in site["owner"]:
-        if name in table:
-            return table[name]
-    return table.get("*", [])
+            found = table[name]
+            break
+    extra = []
+    if site["owner"] and site["owner"][-1] in ("predict", "jacobian", "fit", "predict_numpy", "jacobian_numpy", "predict_2d_numpy", "jacobian_2d_numpy") and "C04" not in found:
+        extra = ["C04"]  # layouts, dtypes and ignored extra coordinates of every gridder
+    return list(found) + extra
 
 
 def pinned_ids():
@@ -218,7 +220,7 @@ def run_one(args):
         res["checks"] = checks
         caught = []
         for c in checks:
-            env2 = dict(os.environ, VERIF_REPO=tree, VERIF_OUT=os.path.join(tmp, "out"), **({} if site.get("stage2") else {"VERIF_WORKERS": "8"}))
+            env2 = dict(os.environ, VERIF_REPO=tree, VERIF_OUT=os.path.join(tmp, "out"), **({} if site.get("stage2") or site.get("redo") else {"VERIF_WORKERS": "8"}))
             r = subprocess.run([os.path.join(VERIF, "run_check.py"), c, "--tier", "quick"], env=env2, capture_output=True, text=True)
             if r.returncode == 1 and "VIOLATION" in r.stdout:
                 first = [ln_ for ln_ in r.stdout.splitlines() if ln_.startswith("[") or ln_.startswith("regression")]
@@ -244,6 +246,7 @@ def main():
     ap.add_argument("--jobs", type=int, default=4)
     ap.add_argument("--files")
     ap.add_argument("--list", action="store_true")
+    ap.add_argument("--redo", help="JSON results of an earlier pass: re-run what it left undecided, against the mapped checks in the registered configuration")
     ap.add_argument("--stage2", help="JSON results of a first pass: re-run its survivors against all 20 quick checks in the registered configuration")
     ap.add_argument("--out", default=os.path.join(VERIF, "mutants", "AUTO_RESULTS"))
     a = ap.parse_args()
@@ -263,6 +266,16 @@ def main():
     if a.stage2:
         chosen = [dict({k: r[k] for k in ("file", "line", "col", "old", "new", "kind", "owner", "text")}, stage2=True) for r in json.load(open(a.stage2))
                   if r["verdict"] in ("survived", "harness-error")]
+    if a.redo:
+        # entries of an earlier pass that were not decided (survived, harness or tool errors), re-located in the current sources by their text
+        want = [r for r in json.load(open(a.redo)) if not (r["verdict"] in ("CAUGHT", "killed-by-pinned-tests", "does-not-import"))]
+        chosen = []
+        for r in want:
+            hits = [s for s in allsites if (s["file"], s["text"], s["col"], s["old"], s["new"], s["kind"]) == (r["file"], r["text"], r["col"], r["old"], r["new"], r["kind"])]
+            if hits:
+                chosen.append(dict(min(hits, key=lambda s: abs(s["line"] - r["line"])), redo=True))
+            else:
+                print("not found any more:", r["file"], r["line"], r["text"])
     pinned = pinned_ids()
     print("sites: %d, sampled: %d" % (len(allsites), len(chosen)), flush=True)
     results = []
